@@ -10,6 +10,7 @@ package main
 
 import (
 	"context"
+	"encoding/json"
 	"fmt"
 	"math/rand/v2"
 	"os"
@@ -82,15 +83,31 @@ func flatOps(g *hxc27.Gen, n int) []hxc27.Op {
 	return out
 }
 
+// genProg: concurrent constructs at top level, inside a function body, started
+// by a function that returns while they run, or started inside a foreground
+// subshell that they outlive; the shell that keeps running assigns the same
+// names meanwhile. Jobs also read (a `__snap` walks the whole environment).
 func genProg(g *hxc27.Gen, r *rand.Rand) (string, bool) {
 	pre := joinYield(flatOps(g, 2+r.IntN(4)))
-	var parts []string
-	parts = append(parts, pre)
-	api := false
+	place := r.IntN(5) // 0,1 top level; 2 whole thing in a function; 3 started by a function that returns; 4 started in ( )
+	var parts, starts, after []string
 	n := 1 + r.IntN(3)
 	for i := 0; i < n; i++ {
 		c := joinYield(flatOps(g, 1+r.IntN(4)))
+		if r.IntN(2) == 0 {
+			c += fmt.Sprintf("; __snap j%d", i)
+		}
 		p := joinYield(flatOps(g, 1+r.IntN(3)))
+		if place >= 3 {
+			// only constructs that do not block the shell that starts them
+			if r.IntN(3) == 0 {
+				starts = append(starts, ": > >( "+c+" )")
+			} else {
+				starts = append(starts, "{ "+c+"; } &")
+			}
+			after = append(after, p)
+			continue
+		}
 		switch r.IntN(6) {
 		case 0:
 			parts = append(parts, "{ "+c+"; } &", p)
@@ -106,8 +123,105 @@ func genProg(g *hxc27.Gen, r *rand.Rand) (string, bool) {
 			parts = append(parts, "{ { "+c+"; } & "+c+"; wait; } &", p)
 		}
 	}
-	parts = append(parts, "wait", "__snap end")
-	return strings.Join(parts, "\n"), api
+	var prog []string
+	prog = append(prog, pre)
+	switch place {
+	case 2:
+		loc := "local l=1; local -a la=(x y)"
+		prog = append(prog, "w() { "+loc+"\n"+strings.Join(parts, "\n")+"\nl=2; la+=(z)\nwait\n}", "w a b")
+	case 3:
+		prog = append(prog, "w() { local l=1\n"+strings.Join(starts, "\n")+"\n}", "w a b", strings.Join(after, "\n"), "wait")
+	case 4:
+		prog = append(prog, "( "+strings.Join(starts, "\n")+"\n)", strings.Join(after, "\n"), "__spin 6")
+	default:
+		prog = append(prog, strings.Join(parts, "\n"), "wait")
+	}
+	prog = append(prog, "__snap end")
+	return strings.Join(prog, "\n"), false
+}
+
+// ---- deterministic visibility check ---------------------------------------------
+// A concurrent copy must keep seeing the state it was started with: the shell that
+// keeps running changes everything AFTER starting it and only then opens the gate
+// the copy waits at. Its snapshot must equal the one taken right before it started.
+const visPre = "x=before; arr=(a b); declare -A m=([k]=v); y=1; export e=1; fold() { echo 1; }; alias al=old; set -- p q"
+const visAfter = "x=after; arr[0]=changed; arr+=(new); m[k]=changed; m[j]=new; unset y; z=new; e=2; fold() { echo 2; }; fnew() { :; }; alias al=new; unalias al; set -- changed; shopt -s extglob"
+const visJob = "__gate_wait g; __snap job; __gate_open d"
+
+type visCase struct{ name, prog string }
+
+func visCases(d1 string) []visCase {
+	after := visAfter + "; cd " + d1
+	sync := "__gate_open g; __gate_wait d"
+	var out []visCase
+	type con struct {
+		name, start string
+		blocking    bool
+	}
+	cons := []con{
+		{"bg", "{ " + visJob + "; } &", false},
+		{"procout", ": > >( " + visJob + " )", false},
+		{"bg_nested", "{ { " + visJob + "; } & wait; } &", false},
+		{"bg_cmdsubst", "{ : \"$( " + visJob + " )\"; } &", false},
+	}
+	for _, c := range cons {
+		out = append(out,
+			visCase{c.name + "/top", visPre + "\n__snap pre\n" + c.start + "\n" + after + "\n" + sync + "\nwait"},
+			visCase{c.name + "/func", visPre + "\nw() { local l=lbefore; local -a la=(x)\n__snap pre\n" + c.start + "\n" + after + "; l=lafter; la+=(y)\n" + sync + "\nwait\n}\nw"},
+			visCase{c.name + "/func_returns", visPre + "\nw() { local l=lbefore\n__snap pre\n" + c.start + "\n}\nw\n" + after + "\n" + sync + "\nwait"},
+			visCase{c.name + "/nested_func_returns", visPre + "\nw1() { w2() { local l=lbefore\n__snap pre\n" + c.start + "\n}; w2; x=mid; arr+=(mid); }\nw1\n" + after + "\n" + sync + "\nwait"},
+			visCase{c.name + "/fg_subshell_outlived", visPre + "\n( __snap pre\n" + c.start + "\n)\n" + after + "\n" + sync},
+			visCase{c.name + "/cmdsubst_outlived", visPre + "\n: \"$( __snap pre\n" + c.start + "\n)\"\n" + after + "\n" + sync},
+			visCase{c.name + "/func_in_fg_subshell", visPre + "\n( w() { local l=lbefore\n__snap pre\n" + c.start + "\n}; w; " + after + "\n" + sync + "\nwait )"},
+		)
+	}
+	// blocking constructs: the running shell is the other side of the construct
+	out = append(out,
+		visCase{"pipe/top", visPre + "\n__snap pre\n{ " + visJob + "; } | { " + after + "; " + sync + "; }"},
+		visCase{"pipe/func", visPre + "\nw() { local l=lbefore\n__snap pre\n{ " + visJob + "; } | { " + after + "; l=lafter; " + sync + "; }\n}\nw"},
+		visCase{"procin/top", visPre + "\n__snap pre\n{ " + after + "; " + sync + "; __drain; } < <( " + visJob + " )"},
+		visCase{"procin/func", visPre + "\nw() { local l=lbefore\n__snap pre\n{ " + after + "; l=lafter; " + sync + "; __drain; } < <( " + visJob + " )\n}\nw"},
+	)
+	return out
+}
+
+func sameView(a, b hxc27.Snap) string {
+	a.InFunc, b.InFunc = false, false
+	ja, _ := json.Marshal(a)
+	jb, _ := json.Marshal(b)
+	if string(ja) == string(jb) {
+		return ""
+	}
+	var diff []string
+	am := map[string]string{}
+	for _, v := range a.Vars {
+		j, _ := json.Marshal(v)
+		am[v.Name] = string(j)
+	}
+	for _, v := range b.Vars {
+		j, _ := json.Marshal(v)
+		if am[v.Name] != string(j) {
+			diff = append(diff, "var "+hx.UnHex(v.Name))
+		}
+		delete(am, v.Name)
+	}
+	for n := range am {
+		diff = append(diff, "var "+hx.UnHex(n)+" missing")
+	}
+	cmp := func(what string, x, y any) {
+		jx, _ := json.Marshal(x)
+		jy, _ := json.Marshal(y)
+		if string(jx) != string(jy) {
+			diff = append(diff, what)
+		}
+	}
+	cmp("funcs", a.Funcs, b.Funcs)
+	cmp("alias", a.Alias, b.Alias)
+	cmp("opts", a.Opts, b.Opts)
+	cmp("dir", a.Dir, b.Dir)
+	cmp("dirstack", a.DirStack, b.DirStack)
+	cmp("params", a.Params, b.Params)
+	return strings.Join(diff, ",")
 }
 
 func main() {
@@ -153,6 +267,55 @@ func main() {
 				out.Fails = append(out.Fails, "data_race")
 			} else if res.Panic != "" {
 				out.Panic = res.Panic
+			}
+			hx.Emit(out)
+		}
+	case "vis":
+		cases := visCases(dirs[1])
+		for i, vc := range cases {
+			out := Out{ID: i, Mode: "vis", Prog: vc.prog, Want: vc.name, RaceOn: hxc27.RaceEnabled}
+			res := pool.Run(hxc27.Case{ID: i, Steps: []hxc27.Step{{Src: vc.prog}}})
+			pre, ok0 := res.Snaps["pre"]
+			job, ok1 := res.Snaps["job"]
+			switch {
+			case strings.Contains(res.Panic, "DATA RACE"):
+				out.Race = res.Panic
+				out.Fails = append(out.Fails, "data_race")
+			case res.Panic != "":
+				out.Panic = res.Panic
+			case res.Hang || !ok0 || !ok1:
+				out.Hang = res.Hang
+				out.Fails = append(out.Fails, "vis_case_did_not_complete")
+			default:
+				if d := sameView(pre, job); d != "" {
+					out.Got = d
+					out.Fails = append(out.Fails, "job_sees_later_parent_write")
+				}
+			}
+			hx.Emit(out)
+		}
+		// Runner.Subshell copy run in a goroutine, gated the same way
+		{
+			i := len(cases)
+			prog := visPre + "; __snap pre ### go Subshell(): " + visJob + " ### " + visAfter
+			out := Out{ID: i, Mode: "vis", Prog: prog, Want: "api/top", RaceOn: hxc27.RaceEnabled}
+			res := pool.Run(hxc27.Case{ID: i, Steps: []hxc27.Step{{Src: visPre + "; __snap pre"}, {Src: visJob, Sub: true, Async: true},
+				{Src: visAfter + "; cd " + dirs[1] + "; __gate_open g; __gate_wait d"}}})
+			pre, ok0 := res.Snaps["pre"]
+			job, ok1 := res.Snaps["job"]
+			switch {
+			case strings.Contains(res.Panic, "DATA RACE"):
+				out.Race = res.Panic
+				out.Fails = append(out.Fails, "data_race")
+			case res.Panic != "":
+				out.Panic = res.Panic
+			case res.Hang || !ok0 || !ok1:
+				out.Fails = append(out.Fails, "vis_case_did_not_complete")
+			default:
+				if d := sameView(pre, job); d != "" {
+					out.Got = d
+					out.Fails = append(out.Fails, "job_sees_later_parent_write")
+				}
 			}
 			hx.Emit(out)
 		}
